@@ -162,12 +162,27 @@ func Gen(r *rand.Rand, o GenOpts) []string {
 	if o.Mix == "C09" {
 		nseal = 1 + r.Intn(3)
 	}
+	// C09 "jump" family: every decision seals (block 1 of many consecutive epochs) and one light validator lags
+	// far behind and then references all heads, so that its event occupies several root slots at once
+	jump := o.Mix == "C09" && r.Intn(3) == 0
+	if jump {
+		nseal = 10
+		cfg.RootsNum, cfg.RootsFrames = []uint{50, 1000}[r.Intn(2)], []int{5, 100}[r.Intn(2)]
+	} else if o.Mix == "C09" && r.Intn(2) == 0 {
+		cfg.RootsNum, cfg.RootsFrames = []uint{50, 1000}[r.Intn(2)], []int{5, 100}[r.Intn(2)]
+	}
 	for k := 0; k < nseal; k++ {
 		blk := []int{1, 1, 2, 2, 3, 5}[r.Intn(6)]
 		if o.Mix == "C09" {
 			blk = []int{1, 1, 2, 3}[r.Intn(4)]
 		}
-		pv = mutateVals(r, pv)
+		if jump {
+			blk = 1
+		}
+		if !jump || r.Intn(4) == 0 {
+			pv = mutateVals(r, pv)
+		}
+		_ = pv
 		policy = append(policy, SealRule{Epoch: epoch0 + uint32(k), Block: blk, Vals: pv})
 	}
 	ref := NewInst(cfg, epoch0, vals, policy)
@@ -194,6 +209,7 @@ func Gen(r *rand.Rand, o GenOpts) []string {
 		side     map[uint32]int // partition side
 		parted   bool
 		pParent  float64
+		deep     uint32 // deeply lagging validator (0 = none)
 	}
 	newEpochState := func() *epochState {
 		v := ref.Validators()
@@ -221,6 +237,17 @@ func Gen(r *rand.Rand, o GenOpts) []string {
 			es.side[id] = r.Intn(2)
 		}
 		es.pParent = 0.5 + 0.5*r.Float64()
+		if jump {
+			for id := range es.lag {
+				delete(es.lag, id)
+			}
+			// the lightest validator lags deeply if the others keep a quorum without it
+			lightest := es.ids[len(es.ids)-1]
+			if uint64(es.w[lightest])*3 < es.total && len(es.ids) >= 3 {
+				es.deep = lightest
+			}
+			es.pParent = 0.4 + 0.6*r.Float64()
+		}
 		if o.Mix == "C03" { // more decisions, so that forks end up below an Atropos
 			es.pParent = 0.75 + 0.25*r.Float64()
 			for id := range es.lag {
@@ -265,6 +292,9 @@ func Gen(r *rand.Rand, o GenOpts) []string {
 			if es.lag[cr] && r.Intn(6) != 0 && tries < 20 {
 				continue
 			}
+			if es.deep != 0 && cr == es.deep && r.Intn(12) != 0 && tries < 20 {
+				continue
+			}
 			break
 		}
 		d := &EvDef{N: len(evs), Epoch: ref.Epoch(), Creator: cr}
@@ -295,10 +325,10 @@ func Gen(r *rand.Rand, o GenOpts) []string {
 		// other parents: one event per other validator
 		for _, k := range r.Perm(len(es.ids)) {
 			v := es.ids[k]
-			if v == cr || len(es.own[v]) == 0 || r.Float64() > es.pParent {
+			if v == cr || len(es.own[v]) == 0 || (r.Float64() > es.pParent && cr != es.deep) {
 				continue
 			}
-			if es.parted && es.side[v] != es.side[cr] {
+			if es.parted && es.side[v] != es.side[cr] && cr != es.deep {
 				continue
 			}
 			own := es.own[v]
